@@ -596,6 +596,13 @@ def run(ctx):
         ctx.cov["map_walk_sites"] = dict(collections.Counter(w["class"] for w in raw["mapwalks"]))
         ctx.cov["package_level_vars_scanned"] = len(raw["globals"])
         ctx.cov["packages_scanned"] = len(raw["packages"])
+        # allowlist entries that no longer name an existing site (harmless, but a reviewer should prune them)
+        import c12gen
+        sites = {c12gen.site_key(w) for w in raw["mapwalks"]}
+        irs = {"%s:%s" % (x["file"], x["func"]) for x in raw.get("irwrites") or []}
+        ctx.cov["stale_allowlist_entries"] = (
+            [e[0] for e in c12gen.read_allowlist("mapwalk_allowlist.txt") if e[0] not in sites] +
+            [e[0] for e in c12gen.read_allowlist("irwrite_allowlist.txt") if e[0] not in irs])
     except Exception:
         pass
 
